@@ -2,7 +2,7 @@ PROP = dict(
     module="M3d.Props.C17",
     corr=dict(quick=300, thorough=4000),
     gen=["Binomial", "Kernels"],
-    tie_modules=["M3d.Lemmas.KernelsTieNumeric", "M3d.Lemmas.KernelsTieRotation"],
+    tie_modules=["M3d.Lemmas.KernelsTieNumeric", "M3d.Lemmas.KernelsTieRotation", "M3d.Lemmas.KernelsTiePoly"],
     corr_theorems=(
         "exact mode (q): the driver prints the SPECIFICATION wherever M3d.C17 proves the faithful model equal to it — "
         "bezier_eval_eq_decasteljau (bez eval -> de Casteljau), bezier_split_eval (bez spliteval), segment_curve_eval (seg eval -> arclength walk), "
@@ -17,6 +17,10 @@ PROP = dict(
         "Matrix2.Eigenvalues / symEigDecomp / SVD (eig2.q, eig2.f, symeig2.f, svd2.f, DECIDING): the faithful models M2.eigenvalues / symEigDecomp / svd (Model/Svd2.lean) run at Rat "
         "(square discriminants) and at Float bit for bit on arbitrary, rank-one, conformal, diagonal, tiny-integer matrices at every scale; mat2_eigenvalues_real/_complex, mat2_sym_disc_nonneg, "
         "mat2_symEigDecomp_reconstructs and mat2_svd_reconstructs prove that these models reconstruct EVERY matrix (U S V^T = M, U, V orthogonal, S sorted, non-negative); "
+        "polynomials in bit mode (poly.f eval/mul/scale/deriv, DECIDING): Poly.eval, Poly.mulLoop (the double loop res[i+j] += x*y in the order of the Go loops; poly_mul_loop_eq proves it equal to Poly.mul, "
+        "the sum of shifted rows of poly_eval_mul), Poly.scale, Poly.derivative run at Float bit for bit; numerical.Vec (vec.q, vec.f, DECIDING): VecN.normSquared/scale/distSquared/zeros/add/sub/dot/at/norm/dist/normalize/projectOut "
+        "(vecN_normSquared_sum, vecN_scale_normSquared, vecN_normalize_unit, vecN_distSquared_eq, vecN_projectOut_orthogonal), length mismatches of Add/Sub/Dot answer panic; "
+        "M3d.KernelsTie.Poly.* (tie module) proves that Polynomial.Eval/Mul/Derivative/Scale, Matrix4.CharPoly and Vec.Scale/NormSquared/DistSquared/Norm/Dist/Normalize/At/Len/Zeros AS REGENERATED from the source are these models; "
         "kind resid (incl. *_scaled with residuals RELATIVE to the matrix norm, rot2/rot3): validation only"
     ),
     rule=(
@@ -25,13 +29,17 @@ PROP = dict(
         "of both signs against the exact rational value of the double 2*pi; control polygons of 0..17 points (every Eval branch: panic, 3 closed forms, every table "
         "row, recursive fallback) at dyadic t sized so that float64 arithmetic is exact, and at arbitrary doubles in bit mode; axis-aligned power-of-two polylines "
         "(exact) and Pythagorean/generic polylines (bit mode) incl. the L-shape at t=1/4; joined curves; table objectives (piecewise constant, arbitrary shape) "
-        "for Line/Grid2D/Grid3D/RecursiveLineSearch with even and odd stops and 0-3 recursions, plus spikes sitting on/next to the first or last stop (clamped refinement window), GSS, bisection; polynomials lead*prod(x-r_i)*prod((x-h)^2+k) of degree 1-8 with known dyadic roots and BOTH signs of the leading coefficient (expected roots computed by the driver); Bezier.Length vs chord sum of Eval and vs Split halves (closed, repeated, collinear, tiny, point polygons); every matrix family (inverse, det, mulcolinv, invmul, mul, charpoly; SVD 2/3/4, Eigenvalues, symEigDecomp, LeastSquares3, SparseCholesky incl. ring patterns with fill-in; rotations) ALSO at dyadic scales 2^k, k in [-40,40] (a third at k=0, small and large scales over-weighted), symmetric and non-symmetric 3x3 with known real eigenvalues, numerical and model2d/model3d twins; distinct = distinct operation lines"
+        "for Line/Grid2D/Grid3D/RecursiveLineSearch with even and odd stops and 0-3 recursions, plus spikes sitting on/next to the first or last stop (clamped refinement window), GSS, bisection; polynomials lead*prod(x-r_i)*prod((x-h)^2+k) of degree 1-8 with known dyadic roots and BOTH signs of the leading coefficient (expected roots computed by the driver); Bezier.Length vs chord sum of Eval and vs Split halves (closed, repeated, collinear, tiny, point polygons); every matrix family (inverse, det, mulcolinv, invmul, mul, charpoly; SVD 2/3/4, Eigenvalues, symEigDecomp, LeastSquares3, SparseCholesky incl. ring patterns with fill-in; rotations) ALSO at dyadic scales 2^k, k in [-40,40] (a third at k=0, small and large scales over-weighted), symmetric and non-symmetric 3x3 with known real eigenvalues, numerical and model2d/model3d twins; numerical.Vec of length 0..32 (small dyadics, Pythagorean and power-of-two-norm vectors in exact mode; arbitrary doubles at scales 2^+-20 in bit mode; mismatched lengths for Add/Sub/Dot); polynomials with arbitrary double coefficients of length 0..10 for Eval/Mul/Scale/Derivative in bit mode; distinct = distinct operation lines"
     ),
     trusted=[
         "regenerated, not hand-written: lean/M3d/Gen/Kernels.lean (Go->Lean translator harness/hlib/go2lean, run on the current "
         "source on every check) contains numerical/matrix2.go, matrix3.go, matrix4.go and vecs.go; M3d.KernelsTie.Numeric.* re-prove "
         "against it that Det, Inverse (through InvertInPlaceDet and the in-place Scale loop), Mul, MulColumn, MulColumnInv, "
         "Transpose, Add of Matrix2/3 and Det, Mul, Transpose of Matrix4 are the model functions of the reconstruction theorems",
+        "regenerated, loops over slices (M3d.KernelsTie.Poly.*, an obligation of C17): numerical.Polynomial.Eval/Mul/Derivative/Scale, Matrix4.CharPoly, Vec.Scale/NormSquared/DistSquared/Norm/Dist/Normalize/At/Len/Zeros as generated from the "
+        "current source (structural recursion loopFrom, slices as lists) are Poly.eval/mulLoop = mul/derivative/scale, M4.charPoly, VecN.*; stated on the generated definitions: Eval p x = sum p[i] x^i, Eval (Mul p q) = Eval p * Eval q, "
+        "Derivative is the formal derivative, Eval (CharPoly m) t = regenerated Matrix4.Det (t I - m), the closed-form root branches / the Cauchy window / deflation by divideRoot speak about the zeros of the regenerated Eval, "
+        "Matrix2.Eigenvalues returns zeros of the characteristic quadratic evaluated by it; float64(i) is read as the cast of the field (HasOfInt), math.Sqrt uninterpreted",
         "regenerated and proved about directly (M3d.KernelsTie.Rotation.*, an obligation of C17): numerical/model3d NewMatrix3Rotation, numerical/model2d NewMatrix2Rotation, "
         "Vec3/Coord3D.OrthoBasis as generated from the source are orthogonal with determinant 1, fix the axis, and R(-t) = R(t)^T (math.Cos/Sin/Sqrt uninterpreted, "
         "constrained by cos^2+sin^2=1 and sqrt(x)^2=x); numerical.Vec2/3/4 Add/Sub/Scale/Dot/Cross/Sum/DistSquared/Norm/Dist/Normalize/ProjectOut are the V2/V3/V4 model functions (KernelsTieNumeric)",
@@ -39,7 +47,8 @@ PROP = dict(
         "outside the translator's subset) - mat3_eigen_charpoly / mat3_smul_charpoly are about these models; the code is tied to them only through resid.v eigvals3* (validation) and scov.f eig2 (deciding, 2x2)",
         "modelled, not verified: sort.SearchFloat64s as 'least index with a[i] >= x' (true on the sorted cumulative offsets); math.Mod as the exact x - trunc(x/y)*y; math.Sqrt / int() / trunc as function parameters constrained by their defining property in the theorems",
         "Coord/Vec Scale/Add/Sub are component-wise, so Bezier kernels are modelled per coordinate (both coordinates are compared by the correspondence)",
-        "Polynomial.Mul is modelled as the sum of shifted rows (equal to the Go double loop over any commutative ring; compared in exact mode only)",
+        "Polynomial.Mul is modelled twice: as the sum of shifted rows (Poly.mul, exact mode, the model of poly_eval_mul) and as the Go double loop (Poly.mulLoop, bit mode); poly_mul_loop_eq proves them equal over every field and M3d.KernelsTie.Poly.polynomial_mul_loop ties the regenerated definition to the latter",
+        "modelled, not tied by regeneration (outside the translator's subset): Polynomial.Add (essentials.MaxInt, trimming loop), divideRoot, IterRealRoots, Vec.Add/Sub/Dot/ProjectOut (panic on length mismatch) - tied by the poly / vec kinds only",
         "VALIDATION ONLY, not proved: BezierCurve.Length (tolerance 1e-5*L+1e-7 against Eval chord sums and Split halves), RealRoots on known-root polynomials (tolerance 2^-17, kind realroots.q); 3x3/4x4 eigenvalues/SVD/symEigDecomp (the cubic formula goes through cmplx.Pow, Matrix4.SVD through the root finder; the 2x2 kernels are modelled, proved and compared bit for bit - see above - and additionally validated here)/LeastSquares3/SparseCholesky/RCM+Permute/BiCGSTAB/RealRoots of degree 3-8 are checked through residual contracts at tolerance 1e-6 on well-conditioned generated inputs (kind 'resid'), at unit scale and at every dyadic scale 2^k, k in [-40,40], with the residual relative to the matrix norm (1e-4 for Matrix4.SVD); rotations (libm cos/sin) through orthogonality/determinant/axis/composition/inverse contracts; their convergence and conditioning are floating-point analysis",
         "floating-point rounding is outside the theorems: they are over ordered fields; the exact mode ties the field instance to the code on inputs where float64 arithmetic is exact, the bit mode ties the operation order",
     ],
@@ -55,7 +64,7 @@ PROP = dict(
     ],
     level_text=(
         "Theorems (Lean 4, all inputs, every linearly ordered field): 2x2/3x3 Inverse is a two-sided inverse when Det != 0, MulColumnInv solves, Det is multiplicative, "
-        "Transpose is an involution; Matrix4.CharPoly is det(xI - m); scale covariance: det(sM)=s^n det M, Inverse(sM)=s^-1 Inverse(M) and MulColumnInv likewise (all s, all M), eigenpairs, the quadratic/cubic of Matrix2/3.Eigenvalues are the characteristic polynomials and chi_{sM}(s x)=s^n chi_M(x) (2x2, 3x3, 4x4 CharPoly coefficient-wise), Gram matrices scale by s^2, U S V^T = M implies U (sS) V^T = sM; Matrix2.Eigenvalues returns the roots of the characteristic polynomial (real branch: ascending, sum trace, product det; complex branch: no real eigenvalue, the conjugate pair), Matrix2.symEigDecomp and Matrix2.SVD reconstruct EVERY (symmetric / arbitrary) 2x2 matrix with orthogonal factors and sorted non-negative singular values (sigma1^2+sigma2^2 = Frobenius^2, sigma1 sigma2 = |det|) for any sqrt with sqrt(x)^2 = x, sqrt(x) >= 0; rotation constructors (as regenerated from the source) are orthogonal with det 1, fix the axis and are inverted by the opposite angle; Vec3.Cross is orthogonal to its arguments, Normalize gives unit vectors, ProjectOut removes the component; list polynomials Eval/Add/Mul/Scale/Derivative/divideRoot satisfy their defining equations and the "
+        "Transpose is an involution; Matrix4.CharPoly is det(xI - m); scale covariance: det(sM)=s^n det M, Inverse(sM)=s^-1 Inverse(M) and MulColumnInv likewise (all s, all M), eigenpairs, the quadratic/cubic of Matrix2/3.Eigenvalues are the characteristic polynomials and chi_{sM}(s x)=s^n chi_M(x) (2x2, 3x3, 4x4 CharPoly coefficient-wise), Gram matrices scale by s^2, U S V^T = M implies U (sS) V^T = sM; Matrix2.Eigenvalues returns the roots of the characteristic polynomial (real branch: ascending, sum trace, product det; complex branch: no real eigenvalue, the conjugate pair), Matrix2.symEigDecomp and Matrix2.SVD reconstruct EVERY (symmetric / arbitrary) 2x2 matrix with orthogonal factors and sorted non-negative singular values (sigma1^2+sigma2^2 = Frobenius^2, sigma1 sigma2 = |det|) for any sqrt with sqrt(x)^2 = x, sqrt(x) >= 0; rotation constructors (as regenerated from the source) are orthogonal with det 1, fix the axis and are inverted by the opposite angle; Vec3.Cross is orthogonal to its arguments, Normalize gives unit vectors, ProjectOut removes the component; list polynomials Eval/Add/Mul (also as the double loop in the order of the source)/Scale/Derivative/divideRoot satisfy their defining equations - Eval, Mul, Scale, Derivative, Matrix4.CharPoly and the numerical.Vec kernels (NormSquared = sum of squares, Scale, DistSquared, Normalize unit, ProjectOut orthogonal) also as REGENERATED from the source - and the "
         "closed-form root branches return exactly the real roots and the Cauchy window of the bracketing branch contains every real root; CanonicalAngle returns the congruent angle in [0, tau) and AngleDist the circular distance; the binomial "
         "table regenerated from the source equals Nat.choose (kernel-decided); BezierCurve.Eval equals de Casteljau for every degree (closed forms, table branch, recursive "
         "fallback), Split reparametrises, Polynomials converts; SegmentCurve.Eval is the point at arclength fraction t; the grid/line/golden-section searches return a "
